@@ -741,8 +741,9 @@ def rule_sibling(prog: Program) -> List[Instance]:
         why = "not of the form (*src.A[:k], *dst.B, *src.A[k + 2:])"
         if sa is not None and sb is not None and sa[0] == sb[0] and sa[0] in ("dims", "shape"):
             k = sa[2]
-            lead_ok = sa[1] is None and isinstance(k, ast.Name)
-            trail_ok = sb[2] is None and isinstance(sb[1], ast.BinOp) and isinstance(sb[1].op, ast.Add) and isinstance(k, ast.Name) and short(sb[1].left) == k.id and const_num(sb[1].right) == 2
+            # the split position: a local or an attribute chain (src.odc.ydim), the same on both sides
+            lead_ok = sa[1] is None and isinstance(k, (ast.Name, ast.Attribute))
+            trail_ok = sb[2] is None and isinstance(sb[1], ast.BinOp) and isinstance(sb[1].op, ast.Add) and isinstance(k, (ast.Name, ast.Attribute)) and short(sb[1].left, 200) == short(k, 200) and const_num(sb[1].right) == 2
             mid_attr = m.value if isinstance(m, ast.Starred) else m
             want_attr = "dimensions" if sa[0] == "dims" else "shape"
             mid_ok = isinstance(mid_attr, ast.Attribute) and mid_attr.attr == want_attr and isinstance(mid_attr.value, ast.Name) and mid_attr.value.id in dst_names
